@@ -1,6 +1,6 @@
 SPECIFICATION GSpec
 CONSTANTS
-  Keys = {1,2,3,4,5,6,7,8,9,10,11,12,13,14,15,16}
+  Keys = {1,2,3,4,5,6,7,8,9,10,11,12,13,14,15,16,17,18}
   Vals = {1,2,3,4,5,6,7,8,9,10,11,12,13,14,15,16,17,18,19,20,21,22}
   MaxLen = 100
   Depth = 40
